@@ -31,7 +31,7 @@ var shard, nshards = 0, 1
 // mine reports whether the current case id belongs to this shard; generators always run (the PRNG
 // stream is the same in every shard), only the evaluation is divided.
 func mine() bool {
-	if id < 15 { // the constants and the hand-written witness cases: shard 0 (first replays)
+	if id < 21 { // the constants and the hand-written witness cases: shard 0 (first replays)
 		if shard == 0 {
 			return true
 		}
@@ -508,6 +508,38 @@ func genFile(r *hx.Rand) {
 	fileCase(lines, queries, pats)
 }
 
+// filterQuery builds the query of a filter kind: u / nu (exact `.unit` term, plain / negated), name,
+// re-MODE / nre-MODE (regexp `.unit` term built from a literal), anything else: `*`.
+func filterQuery(fkind, pat string) (query string, tag string) {
+	switch fkind {
+	case "u":
+		query = ".unit:" + strconv.Quote(pat)
+	case "nu":
+		query = "-.unit:" + strconv.Quote(pat)
+	case "name":
+		query = ".name:" + pat
+	case "re-prefix", "re-exact", "re-sub", "re-suffix", "nre-prefix", "nre-exact", "nre-sub", "nre-suffix":
+		// a regexp `.unit` term built from a literal, so that the driver can decide it without a
+		// regexp engine: ^lit, ^lit$, lit, lit$ (the "/" delimiter escaped)
+		lit := strings.ReplaceAll(regexp.QuoteMeta(pat), "/", `\/`)
+		switch fkind[strings.IndexByte(fkind, '-')+1:] {
+		case "prefix":
+			lit = "^" + lit
+		case "exact":
+			lit = "^" + lit + "$"
+		case "suffix":
+			lit = lit + "$"
+		}
+		query = ".unit:/" + lit + "/"
+		if fkind[0] == 'n' {
+			query = "-" + query
+		}
+		tag = "regexp"
+	default:
+		query = "*"
+	}
+	return
+}
 
 // ---------------------------------------------------------------- kind=hist
 
@@ -551,35 +583,7 @@ func histCase(files [][]histLine, fkind, pat string) {
 			id++
 		}
 	}()
-	var query string
-	tagSet0 := ""
-	switch fkind {
-	case "u":
-		query = ".unit:" + strconv.Quote(pat)
-	case "nu":
-		query = "-.unit:" + strconv.Quote(pat)
-	case "name":
-		query = ".name:" + pat
-	case "re-prefix", "re-exact", "re-sub", "re-suffix", "nre-prefix", "nre-exact", "nre-sub", "nre-suffix":
-		// a regexp `.unit` term built from a literal, so that the driver can decide it without a
-		// regexp engine: ^lit, ^lit$, lit, lit$ (the "/" delimiter escaped)
-		lit := strings.ReplaceAll(regexp.QuoteMeta(pat), "/", `\/`)
-		switch fkind[strings.IndexByte(fkind, '-')+1:] {
-		case "prefix":
-			lit = "^" + lit
-		case "exact":
-			lit = "^" + lit + "$"
-		case "suffix":
-			lit = lit + "$"
-		}
-		query = ".unit:/" + lit + "/"
-		if fkind[0] == 'n' {
-			query = "-" + query
-		}
-		tagSet0 = "regexp"
-	default:
-		query = "*"
-	}
+	query, tagSet0 := filterQuery(fkind, pat)
 	flt, err := benchproc.NewFilter(query)
 	if err != nil {
 		panic("generator produced a bad filter " + query + ": " + err.Error())
@@ -793,7 +797,6 @@ func genHist(r *hx.Rand) {
 	}
 }
 
-
 // ---------------------------------------------------------------- kind=seq
 
 // A history of benchunit.Tidy calls in ONE process on units the package-level cache has never
@@ -864,7 +867,6 @@ func genSeq(r *hx.Rand, i int) {
 		seqCase(v, []string{u, u + "-" + q, u}, "long")
 	}
 }
-
 
 // ---------------------------------------------------------------- kind=conc
 
@@ -965,6 +967,160 @@ func concCase(r *hx.Rand, rounds int) {
 	id++
 }
 
+// ---------------------------------------------------------------- kind=keep
+
+// Matches that are kept: ONE Filter looks at 2-4 results with different unit layouts; all Matches
+// are taken first and only then read (Test/Any/All/Apply). Each kept Match must still be the verdict
+// for ITS result. conc=1: two goroutines do this at the same time on the same Filter.
+func keepCase(lines []histLine, fkind, pat string, conc bool) {
+	if !mine() {
+		return
+	}
+	var lenc []string
+	var text bytes.Buffer
+	for _, l := range lines {
+		var ms []string
+		text.WriteString("Benchmark" + l.name + " 1")
+		for _, m := range l.meas {
+			ms = append(ms, hx.F64(m.val)+":"+hx.HexS(m.unit))
+			text.WriteString(" " + m.text + " " + m.unit)
+		}
+		text.WriteString("\n")
+		lenc = append(lenc, "N"+hx.HexS(l.name)+":"+strings.Join(ms, "+"))
+	}
+	c := 0
+	if conc {
+		c = 1
+	}
+	head := fmt.Sprintf("case %d kind=keep files=%s fk=%s pat=%s conc=%d", id, strings.Join(lenc, ";"), fkind, hx.HexS(pat), c)
+	defer func() {
+		if e := recover(); e != nil {
+			hx.Printf("%s ivals=- tag=crash\n", head)
+			hx.Printf("crash %d reader/filter panicked: %s\n", id, crashText(e))
+			id++
+		}
+	}()
+	query, qtag := filterQuery(fkind, pat)
+	flt, err := benchproc.NewFilter(query)
+	if err != nil {
+		panic("generator produced a bad filter " + query + ": " + err.Error())
+	}
+	rd := benchfmt.NewReader(bytes.NewReader(text.Bytes()), "k")
+	var results []*benchfmt.Result
+	for rd.Scan() {
+		if res, ok := rd.Result().(*benchfmt.Result); ok {
+			results = append(results, res.Clone())
+		}
+	}
+	shape := "ok"
+	if len(results) != len(lines) {
+		shape = "BAD"
+	}
+	var fresh []string
+	for _, res := range results {
+		var fr []string
+		for _, v := range res.Values {
+			fr = append(fr, valStr(v))
+		}
+		fresh = append(fresh, joinOr(fr, "+"))
+	}
+	// one worker: take every Match, wait, then read them
+	worker := func(barrier func()) string {
+		ms := make([]benchproc.Match, len(results))
+		for i, res := range results {
+			ms[i], _ = flt.Match(res)
+		}
+		barrier()
+		var out []string
+		for i, res := range results {
+			var bits strings.Builder
+			for j := range res.Values {
+				if ms[i].Test(j) {
+					bits.WriteByte('1')
+				} else {
+					bits.WriteByte('0')
+				}
+			}
+			cl := res.Clone()
+			ok := ms[i].Apply(cl)
+			var af []string
+			for _, v := range cl.Values {
+				af = append(af, valStr(v))
+			}
+			out = append(out, fmt.Sprintf("%s:%v:%v:%v:%s", bits.String(), ms[i].Any(), ms[i].All(), ok, joinOr(af, "+")))
+		}
+		return joinOr(out, ";")
+	}
+	var outs []string
+	if conc {
+		var wg, bar sync.WaitGroup
+		bar.Add(2)
+		res2 := make([]string, 2)
+		for g := 0; g < 2; g++ {
+			wg.Add(1)
+			go func(g int) {
+				defer wg.Done()
+				defer func() {
+					if e := recover(); e != nil {
+						res2[g] = "PANIC:" + crashText(e)
+					}
+				}()
+				res2[g] = worker(func() { bar.Done(); bar.Wait() })
+			}(g)
+		}
+		wg.Wait()
+		outs = res2
+	} else {
+		outs = []string{worker(func() {})}
+	}
+	tags := []string{"keep"}
+	if qtag != "" {
+		tags = append(tags, qtag)
+	}
+	if conc {
+		tags = append(tags, "keepconc")
+	}
+	hx.Printf("%s ivals=%s tag=%s\n", head, joinOr(fresh, ";"), strings.Join(tags, "+"))
+	hx.Printf("obs %d shape=%s kept=%s\n", id, shape, strings.Join(outs, "|"))
+	hx.Printf("sobs %d kept=%s\n", id, strings.Join(outs, "|"))
+	id++
+}
+
+func genKeep(r *hx.Rand) {
+	pool := []string{"ns/op", "sec/op", hx.Pick(r, scaledUnits), hx.Pick(r, plainUnits), "B/op"}
+	if r.Bool() {
+		pool = append(pool, genReaderUnit(r), "MB/s", "B/s")
+	}
+	var lines []histLine
+	for j := 2 + r.Intn(3); j > 0; j-- {
+		l := histLine{name: hx.Pick(r, []string{"Keep", "Skip"})}
+		for k := 1 + r.Intn(4); k > 0; k-- {
+			v := genVal(r)
+			t := numText(r, v)
+			pv, _ := strconv.ParseFloat(t, 64)
+			l.meas = append(l.meas, meas{t, pv, hx.Pick(r, pool)})
+		}
+		lines = append(lines, l)
+	}
+	u := hx.Pick(r, pool)
+	if r.Bool() {
+		u = tidiedName(u)
+	}
+	conc := r.Chance(1, 4)
+	switch r.Intn(8) {
+	case 0, 1, 2:
+		keepCase(lines, "u", u, conc)
+	case 3, 4:
+		keepCase(lines, "nu", u, conc)
+	case 5:
+		keepCase(lines, "re-"+hx.Pick(r, []string{"prefix", "exact", "sub", "suffix"}), hx.Pick(r, reLits), conc)
+	case 6:
+		keepCase(lines, "nre-"+hx.Pick(r, []string{"prefix", "sub"}), hx.Pick(r, reLits), conc)
+	default:
+		keepCase(lines, "name", "Keep", conc)
+	}
+}
+
 // ---------------------------------------------------------------- main
 
 func main() {
@@ -1022,6 +1178,17 @@ func main() {
 		histCase(mixed, w[0], w[1])
 	}
 
+	// kept Matches (seed C04-R): A = {ns/op, B/op}, B = {B/op, ns/op}, C = all / none
+	keepLines := []histLine{
+		{"A", []meas{m("100", 100, "ns/op"), m("5", 5, "B/op")}},
+		{"B", []meas{m("7", 7, "B/op"), m("200", 200, "ns/op")}},
+		{"C", []meas{m("3", 3, "sec/op"), m("0", 0, "ns/op")}},
+		{"D", []meas{m("9", 9, "B/op")}}}
+	for _, w := range [][2]string{{"u", "ns/op"}, {"u", "sec/op"}, {"nu", "ns/op"}, {"re-prefix", "sec"}, {"nre-exact", "B/op"}} {
+		keepCase(keepLines, w[0], w[1], false)
+	}
+	keepCase(keepLines, "u", "ns/op", true)
+
 	// fixed units × special values
 	for _, u := range fixedUnits {
 		for _, v := range specialVals {
@@ -1061,6 +1228,12 @@ func main() {
 	nf := hx.N(6000, 120000)
 	for i := 0; i < nf; i++ {
 		genFile(r)
+	}
+
+	// Matches of one Filter kept across results
+	nk := hx.N(3000, 60000)
+	for i := 0; i < nk; i++ {
+		genKeep(r)
 	}
 
 	// concurrent first use of fresh units (Tidy and separate Readers)
